@@ -51,7 +51,7 @@ Weights ==
   CASE Mode = "scope" -> <<"SECTION", "SECTION", "ENDSECTION", "DEF", "DEF", "DEF", "REF", "REF", "REF", "QREF", "QREF",
                            "CREF", "PP", "PP">>
     [] Mode = "temp"  -> <<"TDEF", "TDEF", "TDEF", "TREF", "TREF", "TREF", "TDEFX", "TDEFX", "TREFX", "TREFX", "DEF", "REF">>
-    [] Mode = "stack" -> <<"DEF", "DEF", "REF", "REF", "STACK", "STACK", "STACK", "SECTION", "ENDSECTION">>
+    [] Mode = "stack" -> <<"DEF", "DEF", "DEF", "REF", "REF", "REF", "STACK", "STACK", "STACK", "STACK", "SECTION", "ENDSECTION">>
     [] Mode = "macro" -> <<"MACBEGIN", "MACEND", "MACEND", "DEF", "DEF", "REF", "REF", "QREF", "TDEF", "TREF", "SECTION",
                            "ENDSECTION", "TDEFX", "TREFX">>
     [] OTHER          -> <<"SECTION", "SECTION", "ENDSECTION", "DEF", "DEF", "DEF", "REF", "REF", "REF", "QREF", "CREF",
@@ -62,7 +62,47 @@ Allowed(st) ==
   /\ st.k = "MACBEGIN" => Len(s.mtags) < 2
   /\ st.k = "MACEND" => Len(s.mtags) > 0
 
-Init == prog = <<>> /\ cs \in CaseModes /\ s = InitS(cs, PINNED) /\ ob = {} /\ mode = "free"
+\* the smallest texts that show the three deviations of the pinned tree (and their clean neighbours); they are
+\* judged like every other text: Expect says what the manual demands
+Witness ==
+  LET set(w, i) == [k |-> "DEF", nm |-> N(w), kind |-> "set", v |-> Val(i)]
+      equ(w, i) == [k |-> "DEF", nm |-> N(w), kind |-> "equ", v |-> Val(i)]
+      lab(nm) == [k |-> "DEF", nm |-> nm, kind |-> "label", v |-> 0]
+      ref(nm) == [k |-> "REF", nm |-> nm, q |-> NoQ]
+      push(st, w) == [k |-> "PUSHV", st |-> st, nm |-> N(w), q |-> NoQ]
+      pop(st, w) == [k |-> "POPV", st |-> st, nm |-> N(w), q |-> NoQ]
+      mb == [k |-> "MACBEGIN"]
+      me == [k |-> "MACEND"]
+  IN << \* POPV into a constant / into a variable
+        <<equ("foo", 1), set("sym", 2), push("st", "sym"), pop("st", "foo"), ref(N("foo"))>>,
+        <<set("foo", 1), set("sym", 2), push("st", "sym"), pop("st", "foo"), ref(N("foo"))>>,
+        <<equ("foo", 1), push("", "foo"), pop("", "foo"), ref(N("foo"))>>,
+        \* $$ name spaces: equal / different names of the separating definitions
+        <<set("sym", 1), lab(DD("lp")), set("sym", 3), ref(DD("lp"))>>,
+        <<set("sym", 1), lab(DD("lp")), ref(DD("lp")), set("sym", 4), lab(DD("lp")), ref(DD("lp"))>>,
+        <<set("sym", 1), lab(DD("lp")), ref(DD("lp")), set("foo", 4), lab(DD("lp")), ref(DD("lp"))>>,
+        \* a macro without body lines called inside a macro / at top level / a macro with a body called inside
+        <<lab(N("sym")), mb, mb, me, lab(N("sym")), ref(N("sym")), me, ref(N("sym"))>>,
+        <<lab(N("sym")), mb, me, mb, lab(N("sym")), ref(N("sym")), me, ref(N("sym"))>>,
+        <<lab(N("sym")), mb, mb, ref(N("sym")), me, lab(N("sym")), ref(N("sym")), me, ref(N("sym"))>>,
+        \* LIFO: two values on one stack, a second stack in between
+        <<set("sym", 1), set("foo", 2), push("st", "sym"), push("st", "foo"), push("", "foo"), set("sym", 6), set("foo", 7),
+          pop("st", "sym"), ref(N("sym")), pop("st", "foo"), ref(N("foo")), pop("", "sym"), ref(N("sym"))>>,
+        \* FORWARD: the later local symbol, not the global one; [] still reaches the global one
+        <<equ("sym", 1), [k |-> "SECTION", n |-> "aa"], [k |-> "FORWARD", nm |-> N("sym"), q |-> NoQ], ref(N("sym")),
+          equ("sym", 5), ref(N("sym")), [k |-> "REF", nm |-> N("sym"), q |-> QGlob], [k |-> "ENDSECTION", n |-> "aa"],
+          ref(N("sym"))>>,
+        \* qualifiers search one section only; PUBLIC moves, GLOBAL copies under the composed name
+        <<equ("sym", 1), [k |-> "SECTION", n |-> "aa"], equ("sym", 3), [k |-> "SECTION", n |-> "bb"],
+          [k |-> "PUBLIC", nm |-> N("foo"), q |-> QParent(1)], equ("foo", 6), [k |-> "GLOBAL", nm |-> N("sym"), q |-> NoQ],
+          equ("sym", 8), ref(N("sym")), [k |-> "REF", nm |-> N("sym"), q |-> QParent(1)],
+          [k |-> "REF", nm |-> N("sym"), q |-> QParent(2)], [k |-> "REF", nm |-> N("sym"), q |-> QName("Aa")],
+          [k |-> "REF", nm |-> N("foo"), q |-> QParent(1)], [k |-> "ENDSECTION", n |-> ""], ref(N("foo")),
+          [k |-> "ENDSECTION", n |-> ""], ref(NP(<<"aa", "bb", "sym">>))>> >>
+
+Init == /\ cs \in CaseModes /\ s = InitS(cs, PINNED) /\ ob = {}
+        /\ IF Mode = "witness" THEN mode = "done" /\ \E w \in 1..Len(Witness) : prog = Witness[w]
+           ELSE mode = "free" /\ prog = <<>>
 
 \* exhaustive alphabet for BFS (small)
 BfsAlphabet(i) ==
@@ -78,7 +118,7 @@ BfsAlphabet(i) ==
                          \cup Defs(i, {N("sym")}, {"label", "equ"}) \cup Refs({N("sym")}, {NoQ, QGlob})
                          \cup {[k |-> "TDEF", t |-> "-"], [k |-> "TREF", t |-> "-", c |-> 1]}
 
-Next == /\ Len(prog) < MaxLen
+Next == /\ Len(prog) < MaxLen /\ Mode # "witness"
         /\ \E st \in BfsAlphabet(Len(prog) + 1) :
              /\ Allowed(st)
              /\ prog' = Append(prog, st)
@@ -129,7 +169,7 @@ SimNext ==
          En == {ci \in 1..Len(Weights) : OkSet(i, Weights[ci]) # {}}
          wrap == mode = "wrap" \/ i > FreeLen
      IN \E f \in {RandomElement(1..4)} :
-          IF ful # {} /\ (wrap \/ f # 1)
+          IF ful # {} /\ (wrap \/ f > 2)
           THEN /\ \E st \in {RandomElement(ful)} : Take(st)
                /\ mode' = IF wrap THEN "wrap" ELSE "free"
           ELSE IF wrap
@@ -149,6 +189,7 @@ Words(o) == [k \in 1..Len(o) |-> o[k].v]
 \* does the machine with deviations D do what the manual demands of text p
 Conforms(D, p, X) ==
   LET R == RunAll(cs, D, p) IN
+  /\ R.errs = 0 => ~R.repass              \* the pass loop ends
   /\ X.err => R.errs > 0
   /\ R.errs > 0 => X.err \/ X.mayErr
   /\ R.errs = 0 => /\ Len(R.out) = Len(X.words)
@@ -159,7 +200,7 @@ Record(p) ==
       R2 == RunExtra(cs, PINNED, p)
   IN [cs |-> cs, prog |-> p, exp |-> X,
       \* the machine of the pinned tree: errors, words of the last pass, words of one further pass
-      mach |-> [errs |-> R.errs, kinds |-> R.ekinds, passes |-> R.pass, words |-> Words(R.out),
+      mach |-> [errs |-> R.errs, kinds |-> R.ekinds, passes |-> R.pass, repass |-> R.errs = 0 /\ R.repass, words |-> Words(R.out),
                 extra |-> IF R2.errs = 0 THEN Words(R2.out) ELSE <<>>],
       \* which single repair makes the machine conform on this text (attribution of a deviation)
       cause |-> {d \in X.devs : ~Conforms(PINNED, p, X) /\ Conforms(PINNED \ {d}, p, X)}]
